@@ -178,6 +178,6 @@ AComplete == (done /\ out.v = "accept") => out.m.ok
 
 EmitCase == done =>
     PrintT(<<"CASE", ToJson([b |-> body, ret |-> out.ret, res |-> out.res, v |-> out.v, n |-> out.n,
-                             sol |-> SetToSeq({<<r.n, r.c, r.d, r.lit, r.hint>> : r \in out.sol}),
+                             sol |-> SetToSeq({<<r.n, r.c, r.d, r.lit, r.hint, r.hbad>> : r \in out.sol}),
                              fix |-> out.fix, mok |-> out.m.ok, mt |-> SetToSeq({<<t.n, t.t>> : t \in out.m.types}), mwhy |-> out.m.why])>>)
 =============================================================================
